@@ -35,7 +35,8 @@ evaluator's result `v` and visit order `vs` -/
 def RunOk (R : T × G × List Op) (L : List (Nat ⊕ (Bool × Nat))) (v : Option (Bool × Nat)) (vs : List Nat) : Prop :=
   GIu R.2.1 ∧ AP R.1 ∧
   (hasFin R.1 = true → (∃ r, v = some r ∧ DoneAs R.1 r) ∧ trOf R.2.1.log = L ++ vs.map Sum.inl) ∧
-  (hasFin R.1 = false → R.2.2 = [] ∧ (v ≠ none → ∃ pfx, pfx <+: vs ∧ trOf R.2.1.log = L ++ pfx.map Sum.inl))
+  (hasFin R.1 = false → R.2.2 = [] ∧ (v ≠ none → ∃ pfx, pfx <+: vs ∧ trOf R.2.1.log = L ++ pfx.map Sum.inl) ∧
+    ∃ tr : List Nat, trOf R.2.1.log = L ++ tr.map Sum.inl)
 
 /-- the control-free behaviour of a freshly built subtree `s`, started at any moment -/
 def Good (s : T) : Prop := ∀ g : G, GIu g →
@@ -173,7 +174,7 @@ theorem good_sleep (d : Node) (ms : Nat) (hk : d.kind = .sleep ms) (hms : 1 ≤ 
       exact ⟨⟨g'.nextId, by simp [allTasks, allTasksL, sleepDone]⟩, by simp [allTimers, allTimersL, sleepDone], rfl⟩
   · intro hf
     rcases r.2.2 with ⟨e, hr⟩ | ⟨g', e⟩
-    · exact ⟨hr, fun _ => ⟨[], by simp, by rw [r.2.1]; simp⟩⟩
+    · exact ⟨hr, fun _ => ⟨[], by simp, by rw [r.2.1]; simp⟩, [], by rw [r.2.1]; simp⟩
     · rw [e] at hf; simp [hasFin, T.data, sleepDone, TK.isFin] at hf
 
 end Tbox.C17
